@@ -1,12 +1,142 @@
 /- Drv/C06.lean — driver handler for property C06 (line protocol; core-only imports). -/
 import FunsorVerif.Core.Sexp
-import FunsorVerif.Core.XR
+import FunsorVerif.Model.C06
 namespace FV.Drv.C06
-open FV
+open FV FV.C06
 
-/-- `args` are the top-level S-expressions following the property tag on the request line. -/
+def parseDom : Sexp → Option Dom
+  | .list [.atom "real", sh] => sh.asNats?.map fun s => ⟨.real, s⟩
+  | .list [.atom "bint", n, sh] => do
+      let n ← n.asNat?
+      let s ← sh.asNats?
+      pure ⟨.bint n, s⟩
+  | _ => none
+
+def parseOptInt : Sexp → Option (Option Int)
+  | .atom "none" => some none
+  | s => s.asInt?.map some
+
+def parsePart : Sexp → Option IdxPart
+  | .atom "na" => some .newaxis
+  | .atom "el" => some .ellipsis
+  | .list [.atom "k", i] => i.asInt?.map .int
+  | .list [.atom "sl", a, b, c] => do
+      let a ← parseOptInt a
+      let b ← parseOptInt b
+      let c ← parseOptInt c
+      pure (.slice a b c)
+  | _ => none
+
+def parsePVal : Sexp → Option PVal
+  | .atom "none" => some .none
+  | .atom "true" => some (.bool true)
+  | .atom "false" => some (.bool false)
+  | .atom "other" => some .other
+  | .list [.atom "i", i] => i.asInt?.map .int
+  | .list (.atom "is" :: xs) => (xs.mapM Sexp.asInt?).map .ints
+  | .list [.atom "s", s] => s.asStr?.map .str
+  | .list (.atom "idx" :: xs) => (xs.mapM parsePart).map .index
+  | _ => none
+
+def parseParams (s : Sexp) : Option Params := do
+  let xs ← s.asList?
+  xs.mapM fun
+    | .list [k, v] => do
+        let k ← k.asStr?
+        let v ← parsePVal v
+        pure (k, v)
+    | _ => none
+
+def showShape (s : List Nat) : String := toString (Sexp.ofNats s)
+
+def showDom (d : Dom) : String :=
+  match d.dtype with
+  | .real => "(real " ++ showShape d.shape ++ ")"
+  | .bint n => "(bint " ++ toString n ++ " " ++ showShape d.shape ++ ")"
+
+def showErr : Err → String
+  | .notImpl => "NotImplementedError"
+  | .assertion => "AssertionError"
+  | .value => "ValueError"
+  | .zeroDiv => "ZeroDivisionError"
+  | .index => "IndexError"
+  | .type => "TypeError"
+  | .key => "KeyError"
+  | .beyond => "beyond"
+
+def showR : R → String
+  | .ok d => "ok " ++ showDom d
+  | .error e => "ok (raise " ++ showErr e ++ ")"
+
+def showOptShape : Option (List Nat) → String
+  | some s => "ok " ++ showShape s
+  | none => "ok none"
+
+def parseAxis : Sexp → Option Axis
+  | .atom "none" => some .all
+  | .list [.atom "i", i] => i.asInt?.map .one
+  | .list (.atom "is" :: xs) => (xs.mapM Sexp.asInt?).map .many
+  | _ => none
+
+def parseShapes (s : Sexp) : Option (List (List Nat)) := do
+  let xs ← s.asList?
+  xs.mapM Sexp.asNats?
+
+/--
+  C06 fd RULE OPNAME (PARAMS) (DOM…)      the find_domain model
+  C06 np bc (a) (b) | np reduce (shape) AXIS KEEP | np getitem (shape) OFF | np matmul (a) (b)
+       | np stack ((s)…) AXIS | np cat ((s)…) AXIS | np slicelen a b c SIZE      numpy shape spec
+  C06 eagerred (batch) (shape) AXIS KEEP    shape of the array op applied to batched data with the
+                                            axis rewritten as eager_reduction_tensor does
+  C06 eagerbin (batch) (ev1) (ev2)          broadcast of the padded batched data shapes
+-/
 def handle (args : List Sexp) : String :=
   match args with
-  | _ => "err unimplemented"
+  | [.atom "fd", rule, opn, ps, ds] =>
+    match rule.asStr?, opn.asStr?, parseParams ps, ds.asList?.bind (·.mapM parseDom) with
+    | some rule, some opn, some ps, some ds => showR (findDomain rule opn ps ds)
+    | _, _, _, _ => "err bad-args"
+  | [.atom "np", .atom "bc", a, b] =>
+    match a.asNats?, b.asNats? with
+    | some a, some b => showOptShape (npBroadcast2 a b)
+    | _, _ => "err bad-args"
+  | [.atom "np", .atom "reduce", sh, ax, keep] =>
+    match sh.asNats?, parseAxis ax, keep.asBool? with
+    | some sh, some ax, some k => showOptShape (npReduceShape sh ax k)
+    | _, _, _ => "err bad-args"
+  | [.atom "np", .atom "getitem", sh, off] =>
+    match sh.asNats?, off.asNat? with
+    | some sh, some off => showOptShape (npGetitemShape sh off)
+    | _, _ => "err bad-args"
+  | [.atom "np", .atom "matmul", a, b] =>
+    match a.asNats?, b.asNats? with
+    | some a, some b => showOptShape (npMatmulShape a b)
+    | _, _ => "err bad-args"
+  | [.atom "np", .atom "stack", ps, ax] =>
+    match parseShapes ps, ax.asInt? with
+    | some ps, some ax => showOptShape (npStackShape ps ax)
+    | _, _ => "err bad-args"
+  | [.atom "np", .atom "cat", ps, ax] =>
+    match parseShapes ps, ax.asInt? with
+    | some ps, some ax => showOptShape (npCatShape ps ax)
+    | _, _ => "err bad-args"
+  | [.atom "np", .atom "slicelen", a, b, c, n] =>
+    match parseOptInt a, parseOptInt b, parseOptInt c, n.asNat? with
+    | some a, some b, some c, some n =>
+      match sliceLen a b c n with
+      | .ok k => "ok " ++ toString k
+      | .error e => "ok (raise " ++ showErr e ++ ")"
+    | _, _, _, _ => "err bad-args"
+  | [.atom "eagerred", batch, sh, ax, keep] =>
+    match batch.asNats?, sh.asNats?, parseAxis ax, keep.asBool? with
+    | some b, some sh, some ax, some k =>
+      showOptShape (npReduceShape (b ++ sh) (eagerReductionAxis ax sh.length) k)
+    | _, _, _, _ => "err bad-args"
+  | [.atom "eagerbin", batch, e1, e2] =>
+    match batch.asNats?, e1.asNats?, e2.asNats? with
+    | some b, some e1, some e2 =>
+      showOptShape (npBroadcast2 (eagerBinaryPad b e1 e2.length) (eagerBinaryPad b e2 e1.length))
+    | _, _, _ => "err bad-args"
+  | _ => "err bad-request"
 
 end FV.Drv.C06
